@@ -76,6 +76,12 @@ thread_local! {
 }
 
 thread_local! {
+    /// Set by the family `render-faults-on-the-fly`: the entry template is not registered but given
+    /// to `render_str`.
+    static ON_THE_FLY: std::cell::Cell<bool> = const { std::cell::Cell::new(false) };
+}
+
+thread_local! {
     /// (refused after parsing, refused by the parser, not refused) re-registrations
     static READD_STATS: std::cell::Cell<(u64, u64, u64)> = const { std::cell::Cell::new((0, 0, 0)) };
 }
@@ -101,7 +107,7 @@ fn execute_with(p: &Planted, render: bool, ctx: &tera::Context, delims: Option<t
         tera.set_delimiters(d).expect("delimiter set is accepted");
     }
     let added = engine::guarded(|| {
-        tera.add_raw_templates(p.templates.iter().map(|(a, b)| (a.as_str(), b.as_str())))
+        tera.add_raw_templates(p.templates.iter().filter(|(a, _)| a != sites::ONE_OFF).map(|(a, b)| (a.as_str(), b.as_str())))
     });
     match added {
         Err(msg) => return Observed::Panic { phase: "add", msg },
@@ -136,6 +142,14 @@ fn execute_with(p: &Planted, render: bool, ctx: &tera::Context, delims: Option<t
                 o
             }),
         }
+    }
+    if p.entry == sites::ONE_OFF {
+        let src = p.source(sites::ONE_OFF).unwrap();
+        return match engine::guarded(|| tera.render_str(src, ctx, true)) {
+            Err(msg) => Observed::Panic { phase: "render", msg },
+            Ok(Err(err)) => Observed::Error { phase: "render", err },
+            Ok(Ok(_)) => Observed::NoError,
+        };
     }
     match engine::guarded(|| tera.render(p.entry, ctx)) {
         Err(msg) => Observed::Panic { phase: "render", msg },
@@ -174,7 +188,9 @@ impl CaseInfo<'_> {
             "templates": self.planted.templates.iter().map(|(n, s)| json!({"name": n, "source": s})).collect::<Vec<_>>(),
             "render": self.planted.entry,
             "context": CONTEXT_DESCRIPTION,
-            "history": if AFTER_REFUSED_READD.with(|c| c.get()) {
+            "history": if self.planted.entry == sites::ONE_OFF {
+                "every other template registered, then the source listed as __tera_one_off given to render_str(.., autoescape = true)"
+            } else if AFTER_REFUSED_READD.with(|c| c.get()) {
                 "registered; then add_raw_templates(every template moved down three lines + a template using an unknown filter) was refused; then rendered"
             } else {
                 "registered, then rendered"
@@ -502,6 +518,7 @@ fn short(msg: &str) -> String {
 /// Runs one catalogue fault at one site with one padding.
 fn run_fault(f: &Fault, site: usize, pad: usize, ctx: &tera::Context, acc: &mut Acc) {
     let planted = plant(site, PADS[pad].1, &f.text, !f.at_eof && !NO_TAIL.with(|c| c.get()));
+    let planted = if ON_THE_FLY.with(|c| c.get()) { planted.on_the_fly() } else { planted };
     let snippet = planted.offset..planted.offset + f.text.len();
     let info = CaseInfo {
         id: &f.id,
@@ -924,6 +941,41 @@ fn main() {
                     run_fault(&faults[fi], site, pad, &ctx, acc);
                 }
                 NO_TAIL.with(|c| c.set(false));
+            },
+        );
+    }
+
+    // ------------------------------------------------ rendering faults below a template rendered on the fly
+    {
+        let items: Vec<(usize, usize)> = faults
+            .iter()
+            .enumerate()
+            .filter(|(_, f)| f.class == Class::Render && !f.text.contains("{% block"))
+            .flat_map(|(i, f)| (0..SITES.len()).filter(move |s| f.sites & sites::ON_THE_FLY_OK & (1 << s) != 0).map(move |s| (i, s)))
+            .collect();
+        const FLY_PADS: [usize; 2] = [0, 4];
+        run.family(
+            Family::new(
+                "render-faults-on-the-fly",
+                items.len() as u64,
+                &format!(
+                    "{} rendering faults x every site whose entry template neither extends nor holds a block ({} sites, incl. a component the entry defines itself) x {} paddings, with the entry template NOT registered but given to render_str: the report names `__tera_one_off` where the fault or a call site is in that source, and every registered template as before",
+                    n_of(Class::Render),
+                    (0..SITES.len()).filter(|s| sites::ON_THE_FLY_OK & (1 << s) != 0).count(),
+                    FLY_PADS.len()
+                ),
+            )
+            .describe(|i| {
+                let (fi, s) = items[i as usize];
+                json!({"fault": faults[fi].id, "site": SITES[s], "snippet": faults[fi].text, "entry": "render_str"})
+            }),
+            |item, acc: &mut Acc| {
+                let (fi, site) = items[item as usize];
+                ON_THE_FLY.with(|c| c.set(true));
+                for pad in FLY_PADS {
+                    run_fault(&faults[fi], site, pad, &ctx, acc);
+                }
+                ON_THE_FLY.with(|c| c.set(false));
             },
         );
     }
